@@ -465,6 +465,58 @@ def gen_synth(rng):
             "cls": bool(l[0] == "struct" and rng.random() < 0.4)}
 
 
+def gen_synth_mixed_dyn(rng):
+    """the class the random stream reaches rarely: a clocked field next to an array written by comb (or clocked)
+    statements through a DYNAMIC index that changes between clock edges; elements the index no longer selects
+    must fall back to their init (comb) / keep their value (sync)."""
+    ew = rng.randrange(1, 4)
+    n = rng.randrange(2, 4)
+    elem = ["leaf", ew, rng.random() < 0.5] if rng.random() < 0.7 else \
+        ["struct", [[0, ["leaf", ew, False]], [1, ["leaf", 1, True]]]]
+    arr = ["array", elem, n]
+    side = ["leaf", rng.randrange(1, 5), rng.random() < 0.5]
+    kind = rng.choice(["struct", "struct", "flex", "nested"])
+    if kind == "struct":
+        fs = [[0, side], [1, arr]]
+        rng.shuffle(fs)
+        l = ["struct", fs]
+        pa, ps_ = [1], [0]
+    elif kind == "flex":
+        l = ["flex", lsize(arr) + lsize(side) + 2, [[0, 1, side], [1, lsize(side) + 2, arr]]]
+        pa, ps_ = [1], [0]
+    else:
+        l = ["struct", [[0, ["struct", [[0, side], [1, arr]]]], [1, ["leaf", 2, False]]]]
+        pa, ps_ = [0, 1], [0, 0]
+    nb = max(1, (n - 1).bit_length()) + (1 if rng.random() < 0.4 else 0)
+    ins = [["u", side[1], side[2]], ["u", nb, False]]
+    arr_dom, side_dom = rng.choice([("comb", "sync"), ("comb", "sync"), ("sync", "comb")])
+    st = [{"dom": side_dom, "p": ps_, "in": 0, "ix": None}]
+    if elem[0] == "leaf":
+        ins.append(["u", max(1, ew + rng.choice([-1, 0, 1])), rng.random() < 0.5])
+        st.append({"dom": arr_dom, "p": pa, "in": 2, "ix": 1})
+    else:
+        ins.append(["v", elem])
+        st.append({"dom": arr_dom, "p": pa, "in": 2, "ix": 1})
+    if rng.random() < 0.5:                            # a constant-index statement on one element, same domain
+        ins.append(["u", lsize(elem), False] if elem[0] == "leaf" else ["v", elem])
+        st.append({"dom": arr_dom, "p": pa + [rng.randrange(0, n)], "in": len(ins) - 1, "ix": None})
+        if rng.random() < 0.5:
+            st[-1], st[-2] = st[-2], st[-1]
+
+    def rv(i):
+        if i[0] == "v":
+            return rng.randrange(0, 1 << lsize(i[1]))
+        lo, hi = (-(1 << (i[1] - 1)), 1 << (i[1] - 1)) if i[2] else (0, 1 << i[1])
+        return rng.randrange(lo, hi)
+    stim = []
+    for r_ in range(4):
+        sets = [[j, rv(i)] for j, i in enumerate(ins) if j != 1 and rng.random() < 0.8]
+        sets.append([1, rng.randrange(0, 1 << nb)])             # the index changes every round
+        stim += [["d", sets], ["c", 1], ["c", 0]]
+    return {"k": "synth", "l": l, "tv": rng.randrange(0, 1 << lsize(l)), "ins": ins, "st": st, "stim": stim,
+            "cls": bool(l[0] == "struct" and rng.random() < 0.4)}
+
+
 def build_synth(c):
     from amaranth.hdl import Module, Signal, ClockDomain, Shape
     from amaranth.lib import data
@@ -774,7 +826,7 @@ def gen_cases(tier, seed):
             for tv in range(0, 1 << n):
                 cases.append({"k": "view", "l": l, "tv": tv, "ps": ps})
     # --- structured random
-    N = 700 if not thorough else 6000
+    N = 700 if not thorough else 2600
     for it in range(N):
         depth = rng.randrange(1, 4)
         l = gen_layout(rng, depth, signed_enum=rng.random() < 0.08, wide=rng.random() < 0.25)
@@ -792,7 +844,7 @@ def gen_cases(tier, seed):
                 paths.append([rng.randrange(-3, 8)])
             cases.append({"k": "const", "l": l, "i": init, "ps": paths[:8]})
         # bits
-        raws = list(range(-1, (1 << n) + 1)) if n <= (8 if thorough else 5) else \
+        raws = list(range(-1, (1 << n) + 1)) if n <= (6 if thorough else 5) else \
             [rng.randrange(0, 1 << n) for _ in range(6)] + [(1 << n) - 1, 1 << n, 0, -1]
         if n <= 8 and not thorough and n > 5:
             raws = rng.sample(range(0, 1 << n), 12) + [1 << n, -1]
@@ -840,14 +892,16 @@ def gen_cases(tier, seed):
             cases.append({"k": "xconst", "l": lx, "i": xi, "ps": (xps[:6] + other[:3])})
             cases.append({"k": "siginit", "l": lx, "i": xi, "ps": (xps[:4] + other[:2])})
     # --- designs assigning through view fields: compiled simulator + emitted RTLIL (read back, run by RtlilSem)
-    for it in range(320 if not thorough else 3000):
+    for it in range(300 if not thorough else 2000):
         cases.append(gen_synth(rng))
+    for it in range(60 if not thorough else 400):
+        cases.append(gen_synth_mixed_dyn(rng))
     # --- FlexibleLayout constructor: fields ending at / past the declared size
     for it in range(60 if not thorough else 600):
         fl = overlapping_flex(rng)
         cases.append({"k": "flexnew", "sz": max(0, fl[1] + rng.choice([0, 0, -1, -2, 1])), "fs": fl[2]})
     # --- shaped enumerations
-    for it in range(150 if not thorough else 1200):
+    for it in range(150 if not thorough else 700):
         e = gen_enum_leaf(rng, allow_signed=True)
         w, sg, vw, ms = e[1], e[2], e[3], e[4]
         lo, hi = (-(1 << (w - 1)), (1 << (w - 1))) if sg else (0, 1 << w)
@@ -857,7 +911,7 @@ def gen_cases(tier, seed):
             cases.append({"k": "enum_bits", "w": w, "sg": sg, "vw": vw, "ms": ms, "raw": v})
         cases.append({"k": "enum_const", "w": w, "sg": sg, "vw": vw, "ms": ms, "i": 0, "mode": "none"})   # const(None) = cls(0)
     # --- flags
-    for it in range(260 if not thorough else 2500):
+    for it in range(260 if not thorough else 1100):
         c = gen_flagcls(rng)
         w = c["w"]
         top = 1 << max(w, max(c["ms"]).bit_length())
